@@ -7,6 +7,24 @@ CHECKS = [
         "text": "Generated-input search: thousands of random model definitions (adversarial names, declaration orders, containers, shared sub-expressions) evaluated through python.compile and compared by state name with an mpmath evaluation of the generator's own expression tree; CSE on vs off compared directly. Exploration, not proof: bounded sizes and input box.",
         "note": "Trusts mpmath, the harness' tree evaluator and the 1e-9*scale tolerance rule tied to the generator (denominators bounded away from 0). Bounds: <=5 states, depth<=3, |inputs|<=3.",
     },
+    {
+        "property_id": "C03",
+        "technique": "property-based testing (Hypothesis): generated rectangular EKF definitions x points against high-precision central-difference Jacobians, compared by (row name, column name)",
+        "text": "Generated-input search over EKF definitions whose sensors have a different number of readings than states (+calibrations), comparing process/control/sensor Jacobians of python.compile_ekf entry-wise, by name, with 60-digit central differences of an independent evaluator. Exploration within bounded sizes.",
+        "note": "Trusts mpmath and the harness evaluator; derivative tolerance 1e-9*max(1,abs-derivative-scale). <=4 states, <=4 readings, smooth expressions only. Sensors must be defined at the all-zero state (FormaK's pre-flight evaluates them there).",
+    },
+    {
+        "property_id": "C04",
+        "technique": "property-based testing (Hypothesis): generated models x dt x SPD covariances x controls against a textbook mpmath prediction; purity and repeatability invariants",
+        "text": "Generated-input search comparing process_model with x'=f, P'=G P G^T+V M V^T evaluated in 60-digit mpmath from central-difference Jacobians and the user's named noises; inputs bitwise unchanged; second call bit-identical. Exploration within bounded sizes.",
+        "note": "SPD covariances with condition number <= 100 (the property's own quantifier); tolerance 1e-9*abs-scale; <=4 states, <=3 controls.",
+    },
+    {
+        "property_id": "C05",
+        "technique": "property-based testing (Hypothesis): generated multi-reading sensors x covariances x targeted non-rejected readings against a textbook mpmath Kalman update; consequence invariants",
+        "text": "Generated-input search comparing sensor_model (state, covariance, recorded innovation and innovation covariance) with the textbook Kalman correction in 60-digit mpmath, for sensors of 1..4 readings with unequal noises, plus zero-innovation, symmetry, posterior<=prior and purity invariants. Exploration within bounded sizes.",
+        "note": "Covariances rescaled (power of two) so cond(S) stays moderate; readings are constructed not to be rejected (tau<=0.9 of the threshold or filtering disabled).",
+    },
 ]
 
 _PENDING = "check not built yet in this revision of /verif (planned in DESIGN.md section 6)"
